@@ -6,14 +6,49 @@ claim("C09",
       "Trusted: go/ssa's IR and static callee resolution; the effect models of the external functions the library calls (fmt, strings, math, strconv, container/list, sync, time); calls made by fmt through reflection are not followed (String methods are checked as entry points themselves).",
       "DESIGN.md 4/C09")
 
+_TRUST = "Trusted: go/types + go/ssa of x/tools v0.29.0 (IR, static callee resolution), the rule implementations and reviewed tables under /verif (spec/, closed-world and axiom tables in ranges_axioms.go), and the named axioms printed in the evidence; calls made by fmt through reflection are not followed."
+
+claim("C04",
+      "finite decision tables over comparison atoms (3^6 orderings), path enumeration with interval constraints for the 1582 sites, symbolic arm comparison, delegation-shape and constant-agreement checks over go/ssa",
+      "Decides the structural half of civil date arithmetic: IsBefore/IsAfter are the strict lexicographic orders (complete for these functions); every October-1582 special case describes the same gap (days 5..14 absent, offset 10) and the switch constants agree; derived operations delegate with the right arguments; stepping results depend on the step; the two arms of the day difference are mirror images; clamps consult the target year/month. It does not decide the exactness of the Julian-Day formula or the additivity of NextDay (numeric).",
+      _TRUST, "DESIGN.md 4/C04")
+claim("C05",
+      "interval analysis of the pillar-index fields (E3), effects-based accessor/variant routing against names and a reviewed declared-inputs table (E2), decision shape of the 23:00 rule, typed string-as-time comparisons",
+      "Decides that every stored pillar index stays in its cycle, that each of ~180 pillar accessors reads exactly the pillar and variant its name (or the reviewed table) says, that the early-rat day pillar advances exactly in 23:00-23:59, that change-over comparisons are half-open and compare like renderings. Holds for every date by construction; the instants of the change-overs themselves are numeric and not decided.",
+      _TRUST, "DESIGN.md 4/C05")
+claim("C08",
+      "container/list element-type flow, emptiness typestate, interval analysis of ~216 table index sites with named axioms, literal-table laws (map totality, packed-record grammar, ephemeris table shape)",
+      "Decides the panic-freedom and well-formedness clauses that are visible in the code and data: unchecked type assertions match the pushed types; no possibly-empty string reaches constant-position slicing; every computed index into a package table is PROVEN or PROVEN-UNDER(named axioms/data lemmas); vocabulary maps are total; packed yi/ji and shen-sha data parse under the decoders' grammar with no duplicate codes. Panics that depend on numeric facts outside the axioms are not decided.",
+      _TRUST, "DESIGN.md 4/C08")
+claim("C11",
+      "sibling input-signature comparison on effects (E2/E9), sect-switch typing of day-pillar uses in EightChar, delegation-shape checks for aliases and default schools",
+      "Decides necessary conditions of route agreement: paired routes (hour object vs lunar hour accessors, year object vs New-Year year accessors) read the same fields, tables and term keys; every EightChar use of a day-pillar accessor is the variant selected by sect; deprecated aliases are pure delegations; default accessors delegate to the documented school and all objects agree on it; no accessor memoises. Equality of duplicated arithmetic on equal inputs is not decided.",
+      _TRUST, "DESIGN.md 4/C11")
+claim("C15",
+      "value-dependence slicing (E4) for step relevance, list element-type flow, constant-trip-count and multiplier agreement checks",
+      "Decides that every stepping method's result depends on its step (or is pinned by n == const), that the lists of days/months hold the asserted element types and the fixed unit sizes 7/3/6/12, and that week/season/half-year steps use the same multipliers. Week-index arithmetic and the exact month-separated walk are numeric and not decided.",
+      _TRUST, "DESIGN.md 4/C15")
+claim("C17",
+      "affine forms over SSA (E11) for the epoch offsets and their inverses, delegation shape, declared-inputs check of the day-class predicates, table well-formedness",
+      "Decides that the Taoist/Buddhist year is lunar year + 2697 / + 544 as an affine identity and that the constructors invert it, that month/day delegate to the lunar date, that predicates read only their defining inputs and obtain the day's term through the alias-aware accessor, and that no Taoist/Buddhist year is passed where a lunar year is expected.",
+      _TRUST, "DESIGN.md 4/C17")
+claim("C18",
+      "effects-based declared-inputs check for ~320 attribute accessors, vocabulary check of membership literals, classical laws evaluated on the literal tables",
+      "Decides purity in the sense of the property: each attribute accessor reads exactly its declared defining inputs (per school) and writes nothing, so moments sharing the inputs share the attribute; membership literals contain only stems/branches/pillars; the 28-mansion, duty-god, clash, nayin-pair and spirit-offset laws hold on the tables. Whether table values match the classical sources beyond these laws is not decided.",
+      _TRUST, "DESIGN.md 4/C18")
+claim("C19",
+      "Sprintf format typing (E10): verbs, widths, argument provenance; injectivity of the name tables; rendering-kind typing of every string-as-time comparison",
+      "Decides that ToYmd/ToYmdHms are fixed-width zero-padded renderings of the receiver's fields in order, that digit/month/day name tables are injective and separator-free with the documented shape of the Chinese renderings, and that all 30 string-as-time comparisons compare equal rendering kinds. With the field ranges of C07 this yields parse-back and chronological sorting; a re-implementation without Sprintf is reported as undecided.",
+      _TRUST, "DESIGN.md 4/C19")
+
 for _p, _why in {
     "C01": "check under construction in this session (structural clauses planned, see DESIGN.md 4/C01)",
     "C02": "numerical agreement between an astronomical series and external oracles over 16,800 lunations; no clause is visible in the shape of the code (DESIGN.md 3)",
-    "C03": "check under construction", "C04": "check under construction", "C05": "check under construction",
-    "C06": "check under construction", "C07": "check under construction", "C08": "check under construction",
-    "C10": "check under construction", "C11": "check under construction", "C12": "check under construction",
-    "C13": "check under construction", "C14": "check under construction", "C15": "check under construction",
-    "C16": "check under construction", "C17": "check under construction", "C18": "check under construction",
-    "C19": "check under construction", "C20": "check under construction",
+    "C03": "check under construction",
+    "C06": "check under construction", "C07": "check under construction",
+    "C10": "check under construction", "C12": "check under construction",
+    "C13": "check under construction", "C14": "check under construction",
+    "C16": "check under construction",
+ "C20": "check under construction",
 }.items():
     na(_p, _why)
